@@ -719,7 +719,7 @@ pub fn write_evidence(check: &dyn Check, tier: Tier, seed: u64, out: &RunOutcome
         "distinct_nontrivial": r.distinct.len(),
         "nontrivial_total": r.nontrivial_total,
         "assertions": r.assertions,
-        "rule": check.rule(),
+        "rule": format!("{}{}", check.rule(), added_classes(check.id())),
         "samples": r.samples,
         "classes": r.classes,
         "counters": r.counters,
@@ -756,4 +756,30 @@ pub fn write_evidence(check: &dyn Check, tier: Tier, seed: u64, out: &RunOutcome
     let _ = std::fs::create_dir_all(&dir);
     std::fs::write(format!("{dir}/{}.json", check.id()), serde_json::to_string_pretty(&ev).unwrap())
         .expect("cannot write evidence");
+}
+
+
+/// generator classes added while building (DESIGN 3.3 / 9.45), appended to the rule text of the evidence
+pub fn added_classes(id: &str) -> &'static str {
+    match id {
+        "C01" => " Added classes: axis / data / query layouts, new_unchecked construction, up to 96 lanes, axes up to 10^4 knots from expanded entropy, batches that look like the axis (n points, most of them knots), sorted batches, signed zeros at knots, axis and data scaled together by 2^+-300..900 (f32 2^+-30..100).",
+        "C02" | "C03" | "C16" => " Added classes: anchored / jittered / symmetric / displaced-index axes, constant and duplicated lanes, Individual rows that are all equal / equal in pairs / constant along one trailing axis, 32..96 lanes on short axes, boundary arrays in non-standard layouts, equal-lane data as a broadcast (stride 0) view, setter call orders and overridden decoy calls.",
+        "C04" => " Added classes: transpose and grid-line companions, related axes (identical, other pitch, two views of one allocation), diagonal queries, checkerboard / Toeplitz tables, grids up to 48 x 48, 32..96 lanes on small grids, new_unchecked and Interp2D::builder construction.",
+        "C05" => " Added classes: batches that start with the complete axis, sorted batches, rank-1 batches of 4097..9000 points, zero-length trailing axes with offending elements.",
+        "C06" => " Added classes: +-0.0 outside the range, distances up to 2^150 spans (f32 2^30; comparisons whose largest term is at the edge of the float range are skipped and counted), overridden decoy setter calls, signed zeros at knots.",
+        "C07" => " Added classes: period counts up to 2^42 (f32 2^13), axes rescaled to the edges of the exponent window, displaced-index axes.",
+        "C08" => " Added classes: equal-lane data as a broadcast view with differing boundary rows, rows constant along one trailing axis, 32..96 lanes.",
+        "C09" => " Added classes: query layouts, axis-prefix and axis-like batches, sorted and very long batches, 32..70 lanes, a rank-1 query that is a view into the allocation behind the axis, xs / ys that are two views of one allocation (same start and shape, other strides).",
+        "C10" => " Added classes: data layouts, x and y as two shared arrays over one allocation (y valid or not), axes that look like the index axis at both ends with an interior tie / swap / NaN, boundary arrays with the right row count spread wrongly over the trailing axes, long axes (to 20 000 knots) with one irregularity at a random position, near the end or on a block seam.",
+        "C11" => " Added classes (random part): index-like axes (anchored, displaced-index, unit, symmetric, dyadic, jittered), the axis as a reversed-stride or every-2nd-element view.",
+        "C12" => " Added classes (long vectors): irregularities on block seams, NaN at the first / last element, reversed and strided views, lengths 9..200, plateau vectors and staircases, i64 offsets 2^53..2^61 and i32 near 2^30.",
+        "C13" => " Added classes: 32..96 lanes with data rows and buffer rows in one contiguous non-C layout, queries aliasing the axis allocation, transposed query views of one matrix, x / y axes aliasing each other (plus diagonal points), equal-lane data as a broadcast view.",
+        "C14" => " Added classes: rank-1 batches up to 9000 points whose length sits on or next to a multiple of 2^6..2^12, with the right buffer or one row too few / too many.",
+        "C15" => " Added classes: grid shifts of up to 2^44 grid steps (f32 2^12).",
+        "C17" => " Added classes: an operation repeated immediately (also a failing one) or asked again through the other single-point entry; long axes 65..400; i64 Linear interpolators with axes beyond 2^53 (histories of scalar and batch queries against fresh interpolators).",
+        "C18" => " Added classes: query layouts, zero-length trailing axes, repeated adjacent points, 32..70 lanes, x / y as two views of one allocation with y valid or not, invalid axes that look like the index axis at both ends.",
+        "C19" => " Added classes: the query equal to the interpolator's own axis, xs / ys in different storage kinds (owned / view / shared), buffers whose leading length is off by one (fast path vs per-element path), a knot at zero with -0.0 data asked with alternating signed zeros.",
+        "C20" => " Added classes: element k of a batch (axis-like or random, Ix1 / IxDyn) against a twin in which every row that does not bracket q[k] is poisoned.",
+        _ => "",
+    }
 }
